@@ -348,7 +348,9 @@ def run_chain(case):
             net.stores, net.nacks = [], set()
         net.serve(h)
         try:
-            val = lvs_validator(checker_for(case['schema']), net.app, h.anchor)
+            abuf = bytearray(h.anchor)
+            val = lvs_validator(checker_for(case['schema']), net.app, abuf)
+            abuf[:len(abuf)] = b'\xff' * len(abuf)        # the buffer stays the caller's own
         except Exception as e:  # noqa
             return [(f'C14|chain|constructor-raises:{type(e).__name__}', f'{e!r}; case {case}')], 'ctor'
         res = net.validate(val, h.packet)
@@ -585,8 +587,13 @@ def run_isolation(seq):
     try:
         net.serve(hB)
         net.serve(hA)
-        vA = lvs_validator(checker_for('linear'), net.app, hA.anchor)
-        vB = lvs_validator(checker_for('linear'), net.app, hB.anchor)
+        # both anchors are handed over through one reusable buffer, as an application reading them from files would
+        buf = bytearray(4096)
+        buf[:len(hA.anchor)] = hA.anchor
+        vA = lvs_validator(checker_for('linear'), net.app, memoryview(buf)[:len(hA.anchor)])
+        buf[:len(hB.anchor)] = hB.anchor
+        vB = lvs_validator(checker_for('linear'), net.app, memoryview(buf)[:len(hB.anchor)])
+        buf[:4096] = b'\x00' * 4096
         # fresh-state verdicts are computed on separate fresh instances below
         for k, (inst, p) in enumerate(seq):
             res = net.validate(vA if inst == 'A' else vB, pk[p])
